@@ -115,8 +115,13 @@ func ExtractTypeNameMap(v interface{}) (map[string]reflect.Type, map[string]stri
 // widerListType check whether list type a can hold every element of list type b but not
 // the other way round: pointers (which can be nil) before values, wider numbers before narrower
 func widerListType(a, b reflect.Type) bool {
-	for a.Kind() == reflect.Slice && b.Kind() == reflect.Slice {
+	// a type is not wider than itself (and a recursive list type, type Tree []Tree, is its own
+	// element type: without this test the descent below never ends)
+	for a != b && a.Kind() == reflect.Slice && b.Kind() == reflect.Slice {
 		a, b = a.Elem(), b.Elem()
+	}
+	if a == b {
+		return false
 	}
 	if (a.Kind() == reflect.Ptr) != (b.Kind() == reflect.Ptr) {
 		return a.Kind() == reflect.Ptr
